@@ -341,6 +341,26 @@ CHECKS = {
         "K=3 graphs; thorough: all local, 1/40 of the mixed."),
   technique="TLC-enumerated basin graphs with fixed-point oracle replayed on real files and a loop-back http server",
  ),
+ "C09": dict(
+  level="model_checking",
+  design_ref="DESIGN.md section 5, C09",
+  text=("SplitJoinSpec defines split as consecutive slices of bounded size "
+        "(TLC checks it is a partition) and join as the concatenation in "
+        "chronological order of (date, time incl. fractional seconds) with "
+        "ties in the given order or by numeric run index, restricted to the "
+        "common features. TLC enumerates every split (n <= 7, size <= 9) "
+        "and join cases (2 inputs x all feature subsets x 4 acquisition "
+        "times; 3 inputs x feature-set family x two dates; run-index ties) "
+        "with admissible orders, concatenated tokens and common features; "
+        "each case runs dclab.cli.split/join on generated files and the "
+        "outputs are decoded to tokens; time/frame offsets, index, event "
+        "count and retained logs are compared; the parts of every split "
+        "are joined again and compared with the original."),
+  note=("quick: 1/12 of the 2- and 3-input cases (about 700 joins) and all "
+        "63 splits; thorough: all; features that are computable for some "
+        "inputs only are not modelled."),
+  technique="TLC-enumerated split/join cases replayed through the CLI functions",
+ ),
 }
 
 NOT_YET = "check not built yet (work in progress; see DESIGN.md section 5)"
